@@ -10,6 +10,7 @@ import CssVerif.Driver.SheetOps
 import CssVerif.Driver.CodecOps
 import CssVerif.Driver.NumOps
 import CssVerif.Driver.SelOps
+import CssVerif.Driver.UptoOps
 open CssVerif CssVerif.Proto
 
 def showTok (t : Tok) : String :=
@@ -47,6 +48,10 @@ def step (line : String) : String :=
   | ["sheet", fx, hist] => SheetOps.run fx hist
   | ["cont", which, hist] => SheetOps.runCont which hist
   | ["nsform", d, attr, ns] => SheetOps.runNsForm d attr ns
+  | ["upto", fx, mode, start, toks] => UptoOps.opUpto fx mode start toks
+  | ["split", fx, toks] => UptoOps.opSplit fx toks
+  | ["dsplit", fx, toks] => UptoOps.opDsplit fx toks
+  | ["stmts", fx, items] => UptoOps.opStmts fx items
   | ["sel", ns, hex] => SelOps.opSel ns hex
   | ["num", fx, om, hex] => NumOps.opNum fx om hex
   | ["numval", hex] => NumOps.opVal hex
